@@ -98,18 +98,20 @@ def check(ctx: Ctx) -> str:
     ok = len(ys) == 1 and ast.unparse(ys[0].value) == "concat(buf)" and len(dels) == 1 and ys[0].lineno < dels[0].lineno
     ctx.check(ok, "yield-before-clear", "environment:TemplateStream._buffered_generator", "yield then clear", "the chunk must be yielded (concat(buf)) before the buffer is cleared", bg.loc())
     rs = astq.returns(bg.node)
-    ok = len(rs) == 1 and (cnt, False) in astq.guard_atoms(bg.node, rs[0]) and any(isinstance(h, ast.ExceptHandler) and ast.unparse(h.type) == "StopIteration" for h in astq.ancestors_handlers(rs[0]))
+    at_r = astq.guard_atoms(bg.node, rs[0]) if len(rs) == 1 else []
+    empty = (cnt, False) in at_r or (f"{cnt} == 0", True) in at_r or (f"0 == {cnt}", True) in at_r or (f"{cnt} > 0", False) in at_r or (f"{cnt} < 1", True) in at_r
+    ok = len(rs) == 1 and empty and any(isinstance(h, ast.ExceptHandler) and ast.unparse(h.type) == "StopIteration" for h in astq.ancestors_handlers(rs[0]))
     ctx.check(ok, "return:exhausted-empty", "environment:TemplateStream._buffered_generator", "only return", "the generator may stop only on StopIteration with an empty count (a partial last chunk must still be yielded)", bg.loc())
     rst = [n for n in ast.walk(bg.node) if isinstance(n, ast.Assign) and ast.unparse(n.targets[0]) == cnt and ast.unparse(n.value) == "0"]
     ctx.check(len(rst) == 2, "count:reset", "environment:TemplateStream._buffered_generator", "count reset per chunk", "the count must be reset after each chunk", bg.loc())
     eb = repo.func("environment:TemplateStream.enable_buffering")
-    s = ast.unparse(eb.node)
+    s = eb.ntext  # a local naming the chunking generator is inlined
     ctx.check("if size <= 1:" in s and "partial(next, self._buffered_generator(size))" in s, "enable_buffering", "environment:TemplateStream.enable_buffering", "buffer size", "buffering needs size > 1 and must iterate _buffered_generator(size)", eb.loc())
 
     # the requested size takes effect on every call: the chunking iterator is installed on each
     # path that survives the size check (not only when the stream was unbuffered before)
-    inst = [a for a in ast.walk(eb.node) if isinstance(a, ast.Assign) and ast.unparse(a.targets[0]) == "self._next" and "_buffered_generator(size)" in ast.unparse(a.value)]
-    cond = [at for a in inst for at in astq.guard_atoms(eb.node, a) if at[0] not in ("size <= 1", "size > 1", "size < 2", "size >= 2")]
+    inst = [a for a in ast.walk(eb.nnode) if isinstance(a, ast.Assign) and ast.unparse(a.targets[0]) == "self._next" and "_buffered_generator(size)" in ast.unparse(a.value)]
+    cond = [at for a in inst for at in astq.guard_atoms(eb.nnode, a) if at[0] not in ("size <= 1", "size > 1", "size < 2", "size >= 2")]
     ctx.check(len(inst) == 1 and not cond, "enable_buffering:always", "environment:TemplateStream.enable_buffering", f"chunking iterator installed only under {cond}",
               f"enable_buffering(size) installs `partial(next, self._buffered_generator(size))` only under {cond}: a second call with another size is ignored and the chunks keep combining the old number of pieces", eb.loc())
     db = repo.func("environment:TemplateStream.disable_buffering")
